@@ -174,7 +174,7 @@ def check_sinks(out, facts):
 
 def check_bulk(out, facts):
     cfg = facts.cfg
-    f = facts.by_path.get('codec::encode_slice_no_len')
+    f = roles(facts).get('slice_no_len')
     if not f:
         out.fail('R07.4', 'encode_slice_no_len [%s]' % cfg, 'not found', '-')
         return
